@@ -327,14 +327,15 @@ def shapes_of_alt(a, key):
     if k == "strpat":
         m = re.match(r"^\^([a-z]+)\$$", a.get("pattern", ""))
         if m:
-            return [("enum", m.group(1))]
+            return [("strpat", m.group(1))]      # a string with one admissible spelling (CLUSTER REGION)
         return [("strpat", a.get("example", ""))]
     if k == "bind":
         return [("bind", "")]
     if k == "expr":
         return [("expr", "")]
     if k == "regex":
-        return [("regex", "")]
+        # expression.json is referenced by many slots; MapServer reads /regex/ only in EXPRESSION / FILTER
+        return [("regex", "")] if key in ("expression", "filter") else []
     if k == "hex":
         return [("hex", "")]
     if k == "int":
